@@ -26,6 +26,16 @@ class FaultSchedule(object):
         self.nrecv = 0
         self.nsend = 0
         self.failed = False
+        self.order = []
+
+    def _fail_send(self, sock):
+        self.failed = True
+        conn = getattr(self, "conn", None)
+        self.was_buffered = bool(conn is not None and conn.sock.buffer_writes)
+        if self.kind == "alert-epipe":
+            # the peer said why it is leaving (fatal handshake_failure, unprotected) before it closed
+            sock.rx.buf += bytes([21, 3, 3, 0, 2, 2, 40])
+            sock.rx.eof = True
 
     def _dead_recv(self):
         if self.kind == "eof":
@@ -34,6 +44,9 @@ class FaultSchedule(object):
 
     def on_recv(self, sock, n):
         self.nrecv += 1
+        self.order.append("r")
+        if self.failed and self.kind == "alert-epipe":
+            return None            # what is buffered is delivered, then EOF
         if self.failed:
             return self._dead_recv()
         if self.op == "recv" and self.nrecv == self.at:
@@ -43,10 +56,11 @@ class FaultSchedule(object):
 
     def on_send(self, sock, data):
         self.nsend += 1
+        self.order.append("s")
         if self.failed:
             return ("err", errno.EPIPE)
         if self.op == "send" and self.nsend == self.at:
-            self.failed = True
+            self._fail_send(sock)
             return ("err", errno.EPIPE)
         return None
 
@@ -90,7 +104,7 @@ def call_event(api, envname, out, conn, arrive=0, n=0, wantdesc=0, match=True):
         res = "bytes"
     closed, sess = proj(conn)
     return {"ev": "CALL", "api": api, "env": envname, "arrive": arrive, "res": res, "n": n,
-            "closed": closed, "sess": sess, "desc": desc, "wantdesc": wantdesc, "match": bool(match)}
+            "closed": closed, "sess": sess, "desc": desc, "wantdesc": wantdesc, "match": bool(match), "buffered": False}
 
 
 # ---------------------------------------------------------------- handshake faults
@@ -109,7 +123,16 @@ def hs_reference(job):
         st, co, so = sc.pair.run(cgen, sgen, max_steps=50000)
         if not (co.ok and so.ok):
             return i, role, None
-        return i, role, (sch.nrecv, sch.nsend)
+        # sends of the victim's first flight (before it reads again): there an unprotected alert of the peer is readable
+        first = 0
+        seen_s = False
+        for o in sch.order:
+            if o == "s":
+                seen_s = True
+                first += 1
+            elif seen_s:
+                break
+        return i, role, (sch.nrecv, sch.nsend, first)
     except BaseException:
         import traceback
         return i, role, {"crash": traceback.format_exc()}
@@ -126,12 +149,14 @@ def hs_fault(job):
         vs = p.csock if role == "c" else p.ssock
         victim.closeSocket, victim.ignoreAbruptClose = opts
         vs.schedule = FaultSchedule(op, at, kind)
+        vs.schedule.conn = victim
         cgen, sgen = sc.gens()
         st, co, so = p.run(cgen, sgen, max_steps=50000)
         out = co if role == "c" else so
-        envname = {"eof": "eof", "reset": "reset", "epipe": "epipe"}[kind]
+        envname = {"eof": "eof", "reset": "reset", "epipe": "epipe", "alert-epipe": "fatalsend"}[kind]
         ev = [{"ev": "CFG", "closeSocket": bool(opts[0]), "ignoreAbrupt": bool(opts[1])}]
-        ev.append(call_event("handshake", envname, out, victim))
+        ev.append(call_event("handshake", envname, out, victim, wantdesc=40 if kind == "alert-epipe" else 0))
+        ev[-1]["buffered"] = bool(getattr(vs.schedule, "was_buffered", False))
         # afterwards: reads return empty, writes raise the closed-connection error
         o = p.op(role, _read_gen(victim, None, 1), max_steps=2000)
         ev.append(call_event("read", "ok", o, victim, n=len(o.value or b"")))
@@ -351,7 +376,7 @@ def run(tier):
         if isinstance(cnt, dict):
             rep.machinery_errors.append("reference crashed: " + cnt["crash"][-400:])
             continue
-        nrecv, nsend = cnt
+        nrecv, nsend, nfirst = cnt
         f = flavs[i]
         k = 0
         for at in range(1, nrecv + 1):
@@ -363,6 +388,11 @@ def run(tier):
             opts = [(True, False), (False, True)][k % 2]
             k += 1
             jobs.append((i, f, role, "send", at, "epipe", opts))
+        if role == "s":
+            # the client has answered the ServerHello flight with a fatal alert and is gone: the failing write of the
+            # server must surface that alert, not a bare socket error
+            for at in range(1, nfirst + 1):
+                jobs.append((i, f, role, "send", at, "alert-epipe", (True, False)))
     with Pool(16) as pool:
         res1 = pool.map(hs_fault, jobs, chunksize=8)
     djobs = []
